@@ -101,7 +101,8 @@ Lemma gen_pool_keys :
 Proof. vm_compute. reflexivity. Qed.
 
 (* ---------------------------------------------------------------- the documented constraints
-   Every validate tag of every built-in component config and of the CLI config, as it stands in the source the
+   Every validate tag of every built-in component config and of the CLI config (and every constraint enforced by a
+   constructor that the translator attaches: TCtorHeaders on the `Headers` of the http providers), as it stands in the source the
    properties were written against.  The translator regenerates the left-hand side from the tags of the current
    tree; dropping or weakening a constraint no longer matches this table. *)
 From Coq Require Import String Ascii.
@@ -159,8 +160,33 @@ Lemma gen_constraints_documented : constraint_table =
   :: ("core.Gun"%string, "http2/scenario"%string, ("Target"%string, TEndpoint :: TRequired :: nil)
   :: ("auto-tag.uri-elements"%string, TMin 1 :: nil) :: nil)
   :: ("core.Provider"%string, "grpc/json"%string, ("Limit"%string, TMin 0 :: nil)
-  :: ("Passes"%string, TMin 0 :: nil) :: nil) :: ( "core.Provider"%string, "json"%string, ( "ammo-queue-size"%string, TMin 1 :: nil) :: ( "source"%string, TRequired :: nil) :: ( "Limit"%string, TMin 0 :: nil) :: ( "Passes"%string, TMin 0 :: nil) :: nil) :: ( "core.Schedule"%string, "const"%string, ( "Ops"%string, TMin 0 :: nil) :: ( "Duration"%string, TMinTime 1000000 :: nil) :: nil) :: ( "core.Schedule"%string, "instance_step"%string, ( "From"%string, TMin 0 :: nil) :: ( "To"%string, TMin 0 :: nil) :: ( "Step"%string, TMin 1 :: nil) :: ( "StepDuration"%string, TMinTime 1000000 :: nil) :: nil) :: ( "core.Schedule"%string, "line"%string, ( "From"%string, TMin 0 :: nil) :: ( "To"%string, TMin 0 :: nil) :: ( "Duration"%string, TMinTime 1000000 :: nil) :: nil) :: ( "core.Schedule"%string, "once"%string, ( "Times"%string, TMin 1 :: nil) :: nil) :: ( "core.Schedule"%string, "step"%string, ( "From"%string, TMin 0 :: nil) :: ( "To"%string, TMin 0 :: nil) :: ( "Step"%string, TMin 1 :: nil) :: ( "Duration"%string, TMinTime 1000000 :: nil) :: nil) :: ( "core.Schedule"%string, "unlimited"%string, ( "Duration"%string, TMinTime 1000000 :: nil) :: nil) :: nil.
+  :: ("Passes"%string, TMin 0 :: nil) :: nil)
+  :: ("core.Provider"%string, "http"%string, ("Headers"%string, TCtorHeaders :: nil) :: nil)
+  :: ("core.Provider"%string, "http/json"%string, ("Headers"%string, TCtorHeaders :: nil) :: nil)
+  :: ( "core.Provider"%string, "json"%string, ( "ammo-queue-size"%string, TMin 1 :: nil) :: ( "source"%string, TRequired :: nil) :: ( "Limit"%string, TMin 0 :: nil) :: ( "Passes"%string, TMin 0 :: nil) :: nil)
+  :: ("core.Provider"%string, "raw"%string, ("Headers"%string, TCtorHeaders :: nil) :: nil)
+  :: ("core.Provider"%string, "uri"%string, ("Headers"%string, TCtorHeaders :: nil) :: nil)
+  :: ("core.Provider"%string, "uripost"%string, ("Headers"%string, TCtorHeaders :: nil) :: nil)
+  :: ( "core.Schedule"%string, "const"%string, ( "Ops"%string, TMin 0 :: nil) :: ( "Duration"%string, TMinTime 1000000 :: nil) :: nil) :: ( "core.Schedule"%string, "instance_step"%string, ( "From"%string, TMin 0 :: nil) :: ( "To"%string, TMin 0 :: nil) :: ( "Step"%string, TMin 1 :: nil) :: ( "StepDuration"%string, TMinTime 1000000 :: nil) :: nil) :: ( "core.Schedule"%string, "line"%string, ( "From"%string, TMin 0 :: nil) :: ( "To"%string, TMin 0 :: nil) :: ( "Duration"%string, TMinTime 1000000 :: nil) :: nil) :: ( "core.Schedule"%string, "once"%string, ( "Times"%string, TMin 1 :: nil) :: nil) :: ( "core.Schedule"%string, "step"%string, ( "From"%string, TMin 0 :: nil) :: ( "To"%string, TMin 0 :: nil) :: ( "Step"%string, TMin 1 :: nil) :: ( "Duration"%string, TMinTime 1000000 :: nil) :: nil) :: ( "core.Schedule"%string, "unlimited"%string, ( "Duration"%string, TMinTime 1000000 :: nil) :: nil) :: nil.
 Proof. vm_compute. reflexivity. Qed.
+
+(* ---------------------------------------------------------------- constraints enforced by constructors
+   The model applies them (ctor_ok) to the options of the component's own config struct, after squashing.  Computed on
+   the generated table: every such tag sits on a flat option of a component config whose type is a list of strings,
+   none is buried in a nested struct / list / map, none is in the CLI config. *)
+Definition is_ctor_tag (t : vtag) : bool := match t with TCtorHeaders => true | _ => false end.
+Definition ctor_count (l : list (string * list vtag)) : nat :=
+  List.length (filter (fun nt => existsb is_ctor_tag (snd nt)) l).
+Definition ctor_flat_count (s : schema) : nat :=
+  List.length (filter (fun f => existsb is_ctor_tag (f_tags f) &&
+                           match f_schema f with SSlice (SScalar KString) => true | _ => false end) (flat_fields s)).
+
+Lemma gen_ctor_tags_placed :
+  ctor_count (tagged "" gen_root_schema) = O
+  /\ forallb (fun e => match e_conf e with
+                       | Some (cs, _) => Nat.eqb (ctor_count (tagged "" cs)) (ctor_flat_count cs)
+                       | None => true end) gen_registry = true.
+Proof. vm_compute. split; reflexivity. Qed.
 
 (* ---------------------------------------------------------------- the documented defaults
    The registered default value of every option of every built-in component and of the CLI config, as they stand
